@@ -2,6 +2,7 @@ import ComposeVerif.Model.Template
 import ComposeVerif.Spec.Template
 import ComposeVerif.Gen.Consts
 import ComposeVerif.Lemmas.TemplateMore
+import ComposeVerif.Neg.C07
 /-!
 # C07 — variable substitution follows the Compose interpolation grammar
 
@@ -98,6 +99,13 @@ theorem subst_malformed_is_err (env : Env) (t : List Seg) (r : Str) (h : WF t = 
 theorem subst_render (env : Env) (t : List Seg) (h : WF t = true) : subst env (renderL t) = evalOut env t := by
   rw [subst_eq_run]; exact run_render env t h
 
+/-- The grammar at full strength (`WFml`: a newline may occur inside an operator argument) is *not*
+    satisfied — `Neg.subst_render_multiline_false`, finding `grammar:newline-in-argument`.  This is the
+    provable part: `WF` is `WFml` plus "no newline inside an operator argument". -/
+theorem subst_render_multiline_partial (env : Env) (t : List Seg) (h : WF t = true) :
+    WFml t = true ∧ subst env (renderL t) = evalOut env t :=
+  ⟨list_wf_imp_wfML t false h, subst_render env t h⟩
+
 /-- compositional form: a well-formed prefix is evaluated by the grammar and the scan of the remaining text
     (arbitrary, possibly malformed) starts afresh after it -/
 theorem subst_render_append (env : Env) (t : List Seg) (X : Str) (h : WF t = true) (hX : noNameHead X = true) :
@@ -141,6 +149,14 @@ theorem subst_default_value_verbatim (env : Env) (n m v : Str) (hn : validName n
 
 example : WF [.lit "a}b\n".toList, .op "A".toList .colonDash [.lit "x".toList, .op "B".toList .q [.esc, .var "C".toList false]],
               .lit "}".toList, .var "D".toList true, .var "E".toList false, .lit " z".toList] = true := by decide
+
+/-- a JSON / Go-template default followed by another substitution on the same line (the shape the `fix:` commit repairs) -/
+example : WF [.op "A".toList .colonDash [.lit "{{.N}} {}".toList], .lit " ".toList, .var "B".toList true] = true := by decide
+
+example (env : Env) (b : Str) (hA : env ['A'] = none) (hB : env ['B'] = some b) :
+    subst env "${A:-{}} ${B}".toList = .ok ("{} ".toList ++ b) := by
+  have := subst_render env [.op ['A'] .colonDash [.lit ['{', '}']], .lit [' '], .var ['B'] true] (by decide)
+  simpa [renderL, Seg.render, Op.str, evalOut, evalL, Seg.eval, opSpec, hA, hB] using this
 
 example : ¬ WellFormedBrace "A:x}".toList := by
   rintro ⟨n, tail, hr, hn, hhead, h⟩
